@@ -88,28 +88,30 @@ Theorem C07_no_store_after_invalidate : forall (pre dle : vec -> vec -> Q -> boo
   forall out, In (true, out) (i_log s) -> out = SkippedGeneration.
 Proof. exact no_store_after_invalidate. Qed.
 
-(* Inside the unit box a hit is either the same quantisation cell (every component within 2^-15)
-   or more similar than the threshold. *)
+(* A hit is either the same quantisation cell (every component within 2^-15 of the stored query's)
+   or more similar than the threshold.  Only remaining premise: for the request and the stored
+   queries, |val| * 32768 <= f32::MAX (the scaled value is finite in f32), `fin_scaled`. *)
 Theorem C07_hit_same_or_similar : forall (cfg : config) (ops : list op) (scope : N) (q : vec) (k : nat)
     (r : list result),
   let s := run_state cfg empty ops in
-  in_box q = true -> (forall e, In e (s_entries s) -> in_box (e_query e) = true) ->
+  fin_scaled q = true -> (forall e, In e (s_entries s) -> fin_scaled (e_query e) = true) ->
   snd (get_scoped cfg s scope q k) = Some r ->
   exists e, In e (s_entries s) /\ e_scope e = scope /\ (k <= e_kreq e)%nat /\
             r = firstn k (e_results e) /\
             (Forall2 near1 q (e_query e) \/ c_thr cfg * c_thr cfg < cos_ssq q (e_query e)).
 Proof. exact hit_same_or_similar. Qed.
 
-(* Outside the box the conclusion fails: the saturating i16 cast makes [2;7] and [5;3] share a key. *)
 Definition sat_cfg : config := mkCfg 4 1 2000.
 Definition sat_ops : list op := [OInsert 0 [5; 3] [(1%N, 0)] 1].
 
-Theorem C07_saturation_refuted :
-  exists r, snd (get_scoped sat_cfg (run_state sat_cfg empty sat_ops) 0 [2; 7] 1) = Some r /\
-  forall e, In e (s_entries (run_state sat_cfg empty sat_ops)) ->
-    ~ (Forall2 near1 [2; 7] (e_query e) \/
-       c_thr sat_cfg * c_thr sat_cfg < cos_ssq [2; 7] (e_query e)).
-Proof. exact saturation_refuted. Qed.
+(* REGRESSION WITNESS ABOUT THE OLD QUANTISATION (`... as i16`, before /repo 6ba2bfe): outside the
+   unit box the saturating cast gave the dissimilar queries [2;7] and [5;3] one key; with the
+   current quantisation the keys differ and get([2;7]) after insert([5;3]) is a miss. *)
+Example C07_old_quantisation_saturates :
+  quantise_old [2; 7] = quantise_old [5; 3] /\ ~ Forall2 near1 [2; 7] [5; 3] /\
+  quantise [2; 7] <> quantise [5; 3] /\
+  snd (get_scoped sat_cfg (run_state sat_cfg empty sat_ops) 0 [2; 7] 1) = None.
+Proof. exact old_quantisation_saturates. Qed.
 
 (* Size bound (C20): every reachable cache state holds at most `capacity` entries. *)
 Theorem qcache_len_bound : forall (cfg : config) (ops : list op),
@@ -179,5 +181,5 @@ Print Assumptions C07_scope.
 Print Assumptions C07_k_monotone_partial.
 Print Assumptions C07_no_store_after_invalidate.
 Print Assumptions C07_hit_same_or_similar.
-Print Assumptions C07_saturation_refuted.
+Print Assumptions C07_old_quantisation_saturates.
 Print Assumptions qcache_len_bound.
